@@ -48,6 +48,7 @@ impl Args {
             cases: if only.is_some() { 1 } else { self.u("cases", default_cases) },
             first_case: only.unwrap_or(self.u("first", 0)),
             max_secs: self.f("max-secs", 3600.0),
+            progress: self.kv.get("progress").cloned(),
         }
     }
 }
